@@ -4,7 +4,7 @@ EXTRACTS = ["Pool"]
 HARNESS = [("pool", [])]
 FIDS = [1901]
 LEVEL = "proof"
-RULE = ("harness/src/bin/pool.rs: random operation histories (<= 40 ops; quick 2400, thorough 50000) on the real ProofPool over "
+RULE = ("harness/src/bin/pool.rs: random operation histories (<= 40 ops; quick 3000, thorough 50000) on the real ProofPool over "
         "a fake private-batch circuit (1 or 2 leaves), limits max_proofs/max_buckets/batch in {1,2,3} (budget in {1,2,3}, sometimes "
         "4..8), windows 1 ns .. 1 h, virtual clock; pushes are valid / tampered / wrong-length / non-canonical / dummy-key proofs "
         "from a universe of 6 keys x 6 nullifiers (duplicates and bucket collisions frequent); after EVERY op the whole state "
@@ -29,4 +29,5 @@ def opcodes(case):
 
 def nontrivial(case, model_out):
     b = tagbits(case)
-    return bool(b & 1) and bool(b & ((1 << 5) | (1 << 6) | (1 << 7)))
+    # tag bits: 0 admitted, 1 rejected before the budget check, 2 budget, 3 verification, 4 bucket cap, 5 duplicate
+    return bool(b & 1) and bool(b & ((1 << 3) | (1 << 4) | (1 << 5)))
